@@ -257,6 +257,16 @@ func runCheck(o *checkOpts) int {
 			if len(rp.obl.Using) > 0 {
 				extra = rp.obl.ctx.lemmaAxioms(rp.obl.Using, nil)
 			}
+			if rp.obl.TypeFact {
+				rp.Solver = "go/types"
+				if strings.HasSuffix(rp.obl.goal, "true") || rp.obl.goal == "true" {
+					rp.Status = "proved"
+				} else {
+					rp.Status = "refuted"
+					rp.res.Status = "typefact"
+				}
+				return
+			}
 			qs := []string{rp.obl.queryVariant(extra, 0), rp.obl.queryVariant(extra, 1)}
 			if o.dump != "" {
 				os.WriteFile(filepath.Join(o.dump, sanitize(rp.Name)+".smt2"), []byte(qs[0]), 0o644)
